@@ -11,7 +11,8 @@
     src/mod_auth.c        mod_auth_uri_handler() rule lookup -> `authRule`
     src/mod_staticfile.c  exclude-extensions test            -> `staticExclude`
     src/configfile-glue.c config_check_cond_nocache_eval()   -> `Scope.holds`
-                          (url / host / remoteip conditions; the cache and its resets are C14's)
+                          (url / host / remoteip conditions; `==` on the host is C14's `Cond.eqLike`;
+                           the cache and its resets are C14's)
     src/response.c  http_response_physical_path_check(),
                     http_response_physical_pathinfo()        -> `statFull`, `pathinfoSplit`, `resolve`
                     http_response_prepare()                  -> `serve` (order of the hooks:
@@ -23,6 +24,7 @@
   object found there.  Request-target canonicalisation is `parseTarget` of Model/Burl.lean.
 -/
 import LtVerif.Model.Burl
+import LtVerif.Model.Cond
 import LtVerif.Model.Extforward
 namespace LtVerif.Access
 open LtVerif B
@@ -94,6 +96,7 @@ inductive Scope where
   | url (op : StrOp) (s : Bytes)
   | urlRe (neg : Bool) (m : Bytes → Bool)     -- =~ / !~ : PCRE2 is external
   | host (op : StrOp) (s : Bytes)
+  | hostRe (neg : Bool) (m : Bytes → Bool)    -- $HTTP["host"] =~ / !~
   | ip (neg : Bool) (net : SockAddr) (bits : Nat)   -- == / != "addr/bits" (bits 0 = whole address)
 
 /-- ranges a continuation byte may have to lie in (RFC 3629 table 3-7) -/
@@ -160,15 +163,12 @@ def strOp (op : StrOp) (s l : Bytes) : Bool :=
   | .prefix_ => s.length ≤ l.length && l.take s.length == s
   | .suffix => s.length ≤ l.length && l.drop (l.length - s.length) == s
 
-/-- `$HTTP["host"] == "name[:port]"` when the lengths differ -/
-def hostPort (l d : Bytes) : Bool :=
-  if l.length > d.length then
-    l.getD d.length 0 == colon && l.length - d.length ≤ 6 && l.take d.length == d
-  else
-    d.getD l.length 0 == colon && d.take l.length == l
-
+/-- `$HTTP["host"] == s` on authority `l`: the port-tolerant comparison of
+    config_check_cond_nocache_eval() (names match whether or not a ":port" of at most 5 digits is
+    present on either side).  This is C14's model of that code (Model/Cond.lean `eqLike` /
+    `hostPort`), reused, not re-stated. -/
 def hostEq (s l : Bytes) : Bool :=
-  if s.head? ≠ some slash ∧ l ≠ [] ∧ l.length ≠ s.length then hostPort l s else l == s
+  Cond.eqLike { comp := .host, cond := .eq, str := s } { host := l }
 
 /-- config_check_cond_nocache_eval() for the conditions modelled here -/
 def Scope.holds (sc : Scope) (e : Env) : Bool :=
@@ -179,6 +179,7 @@ def Scope.holds (sc : Scope) (e : Env) : Bool :=
   | .host .eq s => hostEq s e.host
   | .host .ne s => !hostEq s e.host
   | .host op s => strOp op s e.host
+  | .hostRe neg m => m e.host != neg
   | .ip neg net bits =>
     (if bits ≠ 0 then SockAddr.addrEqBits net e.addr bits else SockAddr.addrEq net e.addr) != neg
 
